@@ -499,6 +499,9 @@ class DAGRunConcurrentManager(DAGRunManagerLike):
                 # We must unlock descendants because the next OneOf subgraph should start the process.
                 # Otherwise, the entire subgraph will be locked.
                 await self.__unlock_descendants(node_id)
+
+                # The OneOf head waits for the destination of this subgraph, which will never be executed now.
+                await self.__unlock_itself(dag.dest)
                 return None
 
             if self._is_switch(node_id):
